@@ -3,6 +3,7 @@ import RR.Proof.SyncWork
 import RR.Proof.Hand
 import RR.Proof.Resampler
 import RR.Proof.DspFir
+import RR.Proof.Gated
 
 /-!
 # C08 — every block is a pure stream function: output independent of chunking
@@ -105,7 +106,35 @@ theorem c08_fir {α : Type} (o : Dsp.Ops α) (cd : Dsp.Codec α) (taps : List α
   have := Dsp.fir_drive o cd taps deci X 0 hd ht sched
   simpa [Dsp.firSpec] using this
 
+/-- **ZeroCrossing and SymbolSync (the gated transducer family), every schedule.** With one or two
+outputs (symbols, clock), however the input is cut into read windows and however much room each
+output has at each call (`sched` = list of (readable, free on output 0, free on output 1)): if no call
+panicked, the block has consumed a prefix of its input and its readers hold exactly the rows the
+per-sample state machine emits on that prefix — a function of the consumed samples alone. -/
+theorem c08_gated (G : Gated) (hn : G.nout = 1 ∨ G.nout = 2) (X : List Nat) (sched : List (Nat × Nat × Nat))
+    (st' : G.σ) (c' : Nat) (rows' : List (List Nat)) (h : driveGated G X G.init 0 [] sched = some (st', c', rows')) :
+    c' ≤ X.length ∧ ∃ R', gatedRun G (X.take c') G.init [] = some (st', R') ∧ rows' = cols G.nout R' := by
+  have := gated_drive G hn X sched G.init 0 [] [] (Nat.zero_le _) (by simp [gatedRun]) (by simp [cols]) st' c' rows' h
+  exact ⟨this.2.1, this.2.2⟩
+
+/-- … hence the outputs of any two schedules are prefix-related (the one that consumed less delivered a prefix). -/
+theorem c08_gated_prefix (G : Gated) (hn : G.nout = 1 ∨ G.nout = 2) (X : List Nat) (s1 s2 : List (Nat × Nat × Nat))
+    (st1 st2 : G.σ) (c1 c2 : Nat) (r1 r2 : List (List Nat))
+    (h1 : driveGated G X G.init 0 [] s1 = some (st1, c1, r1)) (h2 : driveGated G X G.init 0 [] s2 = some (st2, c2, r2))
+    (hc : c1 ≤ c2) : ∃ ext, r2 = r1 ++ ext := by
+  obtain ⟨_, R1, g1, e1⟩ := c08_gated G hn X s1 st1 c1 r1 h1
+  obtain ⟨_, R2, g2, e2⟩ := c08_gated G hn X s2 st2 c2 r2 h2
+  obtain ⟨ext, he⟩ := gatedRun_take_prefix G X c1 c2 hc st1 st2 R1 R2 g1 g2
+  exact ⟨cols G.nout ext, by rw [e1, e2, he, cols_append]⟩
+
+/-- ZeroCrossing (any arithmetic, any `sps`, with or without the clock output) never panics, on any schedule. -/
+theorem c08_zerocrossing_no_panic {α : Type} (o : ZOps α) (sps : α) (nout : Nat) (X : List Nat)
+    (sched : List (Nat × Nat × Nat)) : driveGated (zcGated o sps nout) X (zcGated o sps nout).init 0 [] sched ≠ none :=
+  driveGated_total (zcGated o sps nout) (by intro st s; simp [zcGated]) X sched _ _ _
+
 /-! Non-vacuity. -/
+example : (driveGated toyGated [1, 2, 3, 4, 5, 6] (0 : Nat) 0 [] [(3, 1, 5), (6, 5, 0), (6, 5, 5)]).map (·.2) =
+    some (6, [[2, 1], [4, 3], [6, 5]]) := by decide
 example : (drive1 (resBlockRaw 3 2) [7, 8, 9, 10] (0 : Int) 0 [] [(4, 1), (4, 2), (0, 9), (4, 1), (4, 9)]).2.2 =
     resRef 3 2 0 [7, 8, 9, 10] := by decide
 example : resRef 3 2 0 [7, 8, 9, 10] = [7, 7, 8, 9, 9, 10] := by decide
